@@ -33,3 +33,67 @@ Lemma while_step {S R} f (c : S -> M bool) (b : S -> M (ctl S R)) (p : S -> M S)
      | Next s1 => bind (p s1) (fun s2 => while f c b p s2) | Break s1 => Ret (inl s1) | Return r => Ret (inr r) end)
    else Ret (inl s)).
 Proof. reflexivity. Qed.
+
+(* [BitsCode] a Hoare-style rule for the loop combinator: an invariant indexed by a measure that every full iteration
+   decreases.  One obligation per loop (a single iteration, no induction in the client proof): from Inv m s, either the
+   condition is false / the body breaks or returns and Post holds of the outcome, or the iteration completes in a state
+   satisfying Inv m' with m' < m; nothing panics.  Then fuel > m runs the loop to completion. *)
+Lemma while_rule {S R} (c : S -> M bool) (b : S -> M (ctl S R)) (p : S -> M S)
+  (Inv : nat -> S -> Prop) (Post : S + R -> Prop) :
+  (forall m s, Inv m s ->
+     match c s with
+     | Ret false => Post (inl s)
+     | Ret true =>
+         match b s with
+         | Ret (Next s1) => match p s1 with Ret s2 => exists m', (m' < m)%nat /\ Inv m' s2 | _ => False end
+         | Ret (Break s1) => Post (inl s1)
+         | Ret (Return r) => Post (inr r)
+         | _ => False
+         end
+     | _ => False
+     end) ->
+  forall fuel m s, Inv m s -> (m < fuel)%nat -> exists out, while fuel c b p s = Ret out /\ Post out.
+Proof.
+  intros Hstep. induction fuel as [|f IH]; intros m s Hi Hm; [lia|].
+  rewrite while_step. specialize (Hstep m s Hi). unfold bind.
+  destruct (c s) as [[|]| |]; try contradiction.
+  - destruct (b s) as [[s1|s1|r]| |]; try contradiction.
+    + destruct (p s1) as [s2| |]; try contradiction. destruct Hstep as (m' & Hlt & Hi'). apply (IH m'); [assumption|lia].
+    + eexists; split; [reflexivity|assumption].
+    + eexists; split; [reflexivity|assumption].
+  - eexists; split; [reflexivity|assumption].
+Qed.
+
+(* [BitsCode] the same rule, keeping the invariant at the exit: when code follows the loop (a second loop, a tail
+   append) the client needs the invariant AND the reason the loop ended — the condition evaluated to false in the exit
+   state, or the body broke out (Brk, chosen by the client). *)
+Lemma while_exit {S R} (c : S -> M bool) (b : S -> M (ctl S R)) (p : S -> M S)
+  (Inv : nat -> S -> Prop) (Brk : S -> Prop) (Rt : R -> Prop) :
+  (forall m s, Inv m s ->
+     match c s with
+     | Ret false => True
+     | Ret true =>
+         match b s with
+         | Ret (Next s1) => match p s1 with Ret s2 => exists m', (m' < m)%nat /\ Inv m' s2 | _ => False end
+         | Ret (Break s1) => Brk s1
+         | Ret (Return r) => Rt r
+         | _ => False
+         end
+     | _ => False
+     end) ->
+  forall fuel m s, Inv m s -> (m < fuel)%nat ->
+  exists out, while fuel c b p s = Ret out /\
+    match out with
+    | inl s' => (exists m', Inv m' s' /\ c s' = Ret false) \/ Brk s'
+    | inr r => Rt r
+    end.
+Proof.
+  intros Hstep. induction fuel as [|f IH]; intros m s Hi Hm; [lia|].
+  rewrite while_step. pose proof (Hstep m s Hi) as Hs. unfold bind.
+  destruct (c s) as [[|]| |] eqn:Ec; try contradiction.
+  - destruct (b s) as [[s1|s1|r]| |]; try contradiction.
+    + destruct (p s1) as [s2| |]; try contradiction. destruct Hs as (m' & Hlt & Hi'). apply (IH m'); [assumption|lia].
+    + eexists; split; [reflexivity|]. right. assumption.
+    + eexists; split; [reflexivity|assumption].
+  - eexists; split; [reflexivity|]. left. exists m. split; assumption.
+Qed.
